@@ -234,6 +234,28 @@ func c04AtRest(c *Ctx) {
 			}
 		}
 		r.Check(ok, "C04/R2", "loader:"+ld.fn, ld.fn+" decrypts with the operator's password key and does not use the data when decryption fails", c.Pos(fn.Pos()), "decrypt error not checked before use, or another key used")
+		// a loader of one secret succeeds only past a successful decryption with the current password key: no success
+		// return may bypass it (a decoded copy kept in memory would outlive the password)
+		if ld.fn != "GetBLSKeyrings" {
+			var okEdges []ssax.Edge
+			for _, d := range decs {
+				okEdges = append(okEdges, ssax.NilErrEdgesOfCall(fn, d)...)
+			}
+			bypass := ""
+			for _, ret := range ssax.Returns(fn) {
+				if len(ret.Results) == 0 || ret.Block() == fn.Recover {
+					continue
+				}
+				ev := ret.Results[len(ret.Results)-1]
+				for _, lf := range ssax.Leaves(ev, ret) {
+					if ssax.IsNilConst(ssax.Resolve(lf.V)) && (len(okEdges) == 0 || ssax.ReachableAvoiding(fn, lf.At, okEdges, nil)) {
+						bypass = c.PosOf(ret)
+					}
+				}
+			}
+			r.Check(bypass == "", "C04/R2", "loader:"+ld.fn+":always-decrypts", ld.fn+" succeeds only past a successful decryption under the current password key", c.Pos(fn.Pos()),
+				"a success return at "+bypass+" is reachable without decrypt(am.encryptionKey, …) succeeding: the secret is available without (or after expiry of) the operator's password")
+		}
 	}
 	if fn := c.Fn("C04/R2", "airgapped", "", "decrypt"); fn != nil {
 		opens := ssax.Calls(fn, false, func(ci ssa.CallInstruction) bool { o := ssax.CalleeObj(ci); return o != nil && o.Name() == "Open" })
